@@ -310,22 +310,7 @@ class Model:
                 if (constr.dec_model is not self.rc_model) or \
                         (constr.rand_model is not self.sup_model):
                     raise ValueError('Models mismatch.')
-                sense = (constr.sense[0] if isinstance(constr.sense,
-                                                       np.ndarray)
-                         else constr.sense)
-                if sense == 0:
-                    self.all_constr.append(constr)
-                else:
-                    left = RoAffine(constr.raffine, constr.affine,
-                                    constr.rand_model)
-                    right = RoAffine(-constr.raffine, -constr.affine,
-                                     constr.rand_model)
-                    left_constr = RoConstr(left, sense=0)
-                    left_constr.support = constr.support
-                    right_constr = RoConstr(right, sense=0)
-                    right_constr.support = constr.support
-                    self.all_constr.append(left_constr)
-                    self.all_constr.append(right_constr)
+                self.all_constr.append(constr)
             else:
                 raise TypeError('Unknown type of constraints')
 
@@ -336,6 +321,27 @@ class Model:
             return arg[0]
         else:
             return arg
+
+    @staticmethod
+    def one_sided(constr):
+        """
+        A robust inequality as it is, a robust equality as two inequalities
+        with the uncertainty set the constraint has at formulation time.
+        """
+
+        sense = (constr.sense[0] if isinstance(constr.sense, np.ndarray)
+                 else constr.sense)
+        if sense == 0:
+            return [constr]
+
+        left = RoAffine(constr.raffine, constr.affine, constr.rand_model)
+        right = RoAffine(-constr.raffine, -constr.affine, constr.rand_model)
+        left_constr = RoConstr(left, sense=0)
+        left_constr.support = constr.support
+        right_constr = RoConstr(right, sense=0)
+        right_constr.support = constr.support
+
+        return [left_constr, right_constr]
 
     def do_math(self, primal=True):
         """
@@ -385,12 +391,13 @@ class Model:
                                    ExpConstr, KLConstr, LMIConstr, IPCone)):
                 self.rc_model.st(constr)
             if isinstance(constr, RoConstr):
-                if constr.support:
-                    rc_constrs = constr.le_to_rc()
-                else:
-                    rc_constrs = constr.le_to_rc(self.obj_support)
-                for rc_constr in rc_constrs:
-                    self.rc_model.st(rc_constr)
+                for side in self.one_sided(constr):
+                    if side.support:
+                        rc_constrs = side.le_to_rc()
+                    else:
+                        rc_constrs = side.le_to_rc(self.obj_support)
+                    for rc_constr in rc_constrs:
+                        self.rc_model.st(rc_constr)
 
         formula = self.rc_model.do_math(primal, obj=True)
 
